@@ -19,8 +19,19 @@ def c07_optPair (j : Json) (k : String) : Option (Int × Int) :=
   | _ => none
 
 def c07_cfg (j : Json) : Cfg :=
-  { fmt := if fStrD j "fmt" "C" == "U" then .U else .C,
-    shape := c07_optInt j "shape", active := c07_optPair j "active" }
+  let base : Cfg := { fmt := if fStrD j "fmt" "C" == "U" then .U else .C,
+                      shape := c07_optInt j "shape", active := c07_optPair j "active" }
+  -- an owned fiber whose rank extent was not declared: the rank's estimate over all its fibers
+  match fArr j "sibs" with
+  | .ok sibs =>
+    let keys : List (Fib Int Unit) := sibs.map (fun sj =>
+      match asList sj with
+      | .ok es => es.filterMap (fun e => match asList e with
+          | .ok (c :: _) => (c.getInt?.toOption).map (fun ci => (ci, ()))
+          | _ => none)
+      | _ => [])
+    { base with shape := rankExtent keys }
+  | _ => base
 
 /-- a yield as JSON: `[coord, storage position or -1, payload]` -/
 def c07_row (d : Nat) (r : Int × Option Nat × T d) : Json :=
@@ -126,7 +137,7 @@ def c07_handleRange (j : Json) (op : String) (d : Nat) (dflt : Int) : Except Str
          tags := tags ++ (match sp with | some _ => [if valid then "sp-valid" else "sp-invalid"] | none => []) }
 
 def c07_coords (j : Json) (op : String) (cfg : Cfg) {π : Type} (l : Fib Int π) : List Int :=
-  let step := (c07_optNat j "step").getD 1
+  let step := (c07_optInt j "step").getD 1
   let w : Wrap := if op.startsWith "rshape" then .range (fIntD j "s" 0) (fIntD j "e" 0) step
     else if op.startsWith "shape" then .shape else .active
   wrapCoords w cfg l
@@ -137,7 +148,7 @@ def c07_handleShape (j : Json) (op : String) (d : Nat) (dflt : Int) : Except Str
   let l := (show List (Int × T d) from t)
   let cfg := c07_cfg j
   let mk : T d := defaultTree dflt d
-  if op.startsWith "rshape" && (c07_optNat j "step").getD 1 == 0 then
+  if op.startsWith "rshape" && (c07_optInt j "step").getD 1 == 0 then
     return { agree := true, spec := true, tags := ["OUT_OF_MODEL"] }
   let cs := c07_coords j op cfg l
   let y1 := c07_implField j "y1"
@@ -189,7 +200,7 @@ def c07_handleCo (j : Json) (op : String) (d : Nat) (dflt : Int) : Except String
   | [] => return { agree := true, spec := true, tags := ["OUT_OF_MODEL"] }
   | f0 :: _ =>
   let base := (op.drop 2).toString    -- "rshape…" / "shape…" / "ashape…"
-  if base.startsWith "rshape" && (c07_optNat j "step").getD 1 == 0 then
+  if base.startsWith "rshape" && (c07_optInt j "step").getD 1 == 0 then
     return { agree := true, spec := true, tags := ["OUT_OF_MODEL"] }
   let cs := c07_coords j base cfg f0
   let y1 := c07_implField j "y1"
@@ -244,47 +255,74 @@ def c07_handleLazy (j : Json) (op : String) (d : Nat) (dflt : Int) : Except Stri
   let l := (show List (Int × T d) from t)
   let cfg := c07_cfg j
   let emp := isEmpty dflt d
+  let emp' : Option Nat × T d → Bool := fun x => emp x.2
   let mk : T d := defaultTree dflt d
   let sp := c07_optNat j "sp"
-  let os := c07_optInt j "os"
-  let oe := c07_optInt j "oe"
-  let plain := os.isNone && oe.isNone
+  let oact := (j.getObjVal? "oact").toOption.bind (·.getBool?.toOption) == some true
+  let lowerU := (j.getObjVal? "lowerU").toOption.bind (·.getBool?.toOption) == some true
+  let chain := (fArr j "chain").toOption.getD []
+  if oact && !chain.isEmpty then throw "C07: oact with a chain is not generated"
+  let plain := (c07_optInt j "os").isNone && (c07_optInt j "oe").isNone && !oact
   let y1 := c07_implField j "y1"
   let y2 := c07_implField j "y2"
   let matJ := c07_implField j "mat"
   let afterJ := c07_implField j "after"
+  let actJ := c07_implField j "act"
   let within := cfg.fmt == .C || withinActive emp cfg l
   let baseTags := (if cfg.fmt == .U then ["U"] else []) ++ (if l.isEmpty then ["empty-fiber"] else []) ++
     (if l.any (fun x => emp x.2) then ["explicit-empty"] else []) ++
-    (if !plain then ["outer-range"] else []) ++ (match sp with | some i => [if i == 0 then "sp0" else "sp+"] | none => [])
-  -- model, spec (if the case is in the property's domain), tags
-  let (m, specRows, tags) ← (match op with
+    (if !plain then [if oact then "outer-active" else "outer-range"] else []) ++
+    (if !chain.isEmpty then ["lazy-operand"] else []) ++ (if lowerU then ["lower-rank-U"] else []) ++
+    (match sp with | some i => [if i == 0 then "sp0" else "sp+"] | none => [])
+  -- first stage on the eager fiber: raw yields of the iterator class, the result's active range,
+  -- spec rows (if the case is in the property's domain), tags
+  let (raw0, mact, spec0, tags) ← (match op with
     | "project" => do
       let k ← fInt j "k"; let mm ← fInt j "m"
       let iv := c07_optPair j "iv"
-      let m := project emp mk cfg k mm iv sp os oe l
       let valid : Bool := match sp with
         | none => true
         | some i => decide (0 < k) && projValidStart emp k mm iv i l
       let inDomain := k != 0 && valid && within
-      let srows := if inDomain then some (projectSpec emp k mm iv os oe l) else none
+      let srows := if inDomain then some (projectSpec emp k mm iv none none l) else none
       let tr := (l.map (fun x => k * x.1 + mm))
       let tg := (if k < 0 then ["rev"] else ["fwd"]) ++ (if iv.isSome then ["iv"] else []) ++
         (match iv with
          | some (lo, hi) => (if tr.any (fun c => c ≥ hi) then ["iv-break"] else []) ++ (if tr.any (fun c => c < lo) then ["iv-below"] else [])
          | none => []) ++
         (if sp.isSome then [if valid then "sp-valid" else "sp-invalid"] else []) ++
-(if !within then ["U-outside-active"] else [])
-      pure (m, srows, tg)
+        (if !within then ["U-outside-active"] else [])
+      pure (projectRaw emp mk cfg k mm iv sp l, projActive cfg k mm iv l, srows, tg)
     | "prune" => do
       let pred ← c07_pred d (← field j "pred")
-      let m := prune emp mk cfg pred sp os oe l
       let valid : Bool := match sp with
         | none => true
         | some i => (cfg.fmt == .U && decide (i < l.length)) || validStart emp none none i l
-      let srows := if valid then some (pruneSpec emp mk cfg pred os oe l) else none
-      pure (m, srows, (if sp.isSome then [if valid then "sp-valid" else "sp-invalid"] else []))
+      let srows := if valid then some (pruneSpec emp mk cfg pred none none l) else none
+      pure (pruneRaw emp mk cfg pred sp l, getActive cfg l, srows,
+            (if sp.isSome then [if valid then "sp-valid" else "sp-invalid"] else []))
     | o => throw s!"C07: unknown lazy op {o}")
+  -- later stages take the lazy result as their operand
+  let mut raw := raw0
+  let mut specRows := spec0
+  for st in chain do
+    match (← fStr st "op") with
+    | "project" =>
+      let k ← fInt st "k"; let mm ← fInt st "m"
+      let iv := c07_optPair st "iv"
+      raw := raw.bind (projectOfLazy emp' k mm iv none)
+      specRows := if k > 0 then specRows.map (fun r => (transF k mm r).filter (fun x => inIv iv x.1)) else none
+    | "prune" =>
+      let pred ← c07_pred d (← field st "pred")
+      raw := raw.bind (pruneOfLazy emp' (fun i c x => pred i c x.2) none)
+      specRows := specRows.map (fun r => ((r.zipIdx).filter (fun x => pred x.2 x.1.1 x.1.2.2)).map (·.1))
+    | o => throw s!"C07: unknown chain stage {o}"
+  -- the traversal of the final lazy fiber
+  let iact : Option (Int × Int) := match asInts actJ with | .ok [a, b] => some (a, b) | _ => none
+  let (mos, moe) : Option Int × Option Int := if oact then (some mact.1, some mact.2) else (c07_optInt j "os", c07_optInt j "oe")
+  let (sos, soe) : Option Int × Option Int := if oact then (iact.map (·.1), iact.map (·.2)) else (c07_optInt j "os", c07_optInt j "oe")
+  let m := raw.map (lazyIter emp' mos moe)
+  specRows := specRows.map (fun r => r.filter (fun x => geStart sos x.1 && !geEnd soe x.1))
   let tags := op :: baseTags ++ tags
   let unchanged := c07_same (treeToJson (d + 1) t) afterJ
   match m with
@@ -301,7 +339,8 @@ def c07_handleLazy (j : Json) (op : String) (d : Nat) (dflt : Int) : Except Stri
       ((c07_implErr j).isNone, "implementation raised, model yields"),
       (c07_same mrows y1, "yields differ from model"),
       (c07_same mrows y2, "second traversal differs from model"),
-      (!plain || c07_same mmat matJ, "fromLazy differs from model"),
+      (!oact || c07_same (jInts [mact.1, mact.2]) actJ, "active range of the lazy result differs from model"),
+      (!plain || lowerU || c07_same mmat matJ, "fromLazy differs from model"),
       (unchanged, "source fiber changed (model)")]
     let (spec, why2) ← (match specRows with
       | none => pure (true, "")
@@ -380,6 +419,9 @@ def c07_handleSeq (j : Json) (d : Nat) (dflt : Int) : Except String Verdict := d
       state := afterAll
       tags := if tags.contains op then tags else tags ++ [op]
     | "touch" =>
+      if (ob.getObjVal? "err").toOption.isSome then
+        agree := false; spec := false
+        if why.isEmpty then why := "a read-only call raised"
       if !(c07_same (jList state) (jList afterAll)) then
         agree := false; spec := false
         if why.isEmpty then why := "a read-only call changed the fiber"
@@ -428,7 +470,13 @@ def handleC07 (j : Json) : Except String Verdict := do
   let v ← (if op == "seq" then c07_handleSeq j d dflt else c07_dispatch j op d dflt)
   let extra := [s!"op:{op}", if cfg.fmt == .U then "fmt:U" else "fmt:C", s!"depth:{d + 1}", s!"dflt:{dflt}",
     fStrD j "kind" "free"] ++ (if cfg.shape.isSome then ["shape-declared"] else []) ++
-    (if cfg.active.isSome then ["active-set"] else [])
+    (if cfg.active.isSome then ["active-set"] else []) ++
+    (["sibs", "sub", "fdflt", "vk", "spbox", "fmtvia", "between", "chain", "oact", "lowerU", "tshape"].filterMap (fun k =>
+      match j.getObjVal? k with
+      | .ok v => if v.isNull then (if k == "tshape" then some "extent-estimated" else none)
+                 else some (if k == "vk" then s!"vk:{v.getStr?.toOption.getD ""}" else if k == "tshape" then "extent-declared" else s!"has:{k}")
+      | _ => none)) ++
+    (if (c07_optInt j "step").getD 1 < 0 then ["neg-step"] else [])
   pure { v with tags := (if v.tags.contains "OUT_OF_MODEL" then v.tags else extra ++ v.tags) }
 
 end FtDriver
